@@ -131,7 +131,7 @@ Inductive disposition :=
   | IsPicture | IsThumbnail | IsRootPart | IsRootEntry | IsObject | IsObjectPart | IsExtra.
 
 Definition classify (foreign : str -> bool) (m : manifest) (p : str) : disposition :=
-  if starts_with (s2l "Pictures/") p && negb (str_eqb p (s2l "Pictures/")) then IsPicture
+  if starts_with (s2l "Pictures/") p && negb (str_eqb p (s2l "Pictures/")) && negb (ends_slash p) then IsPicture
   else if str_eqb p sTHUMB then IsThumbnail
   else if is_xml_part_name p then IsRootPart
   else if str_eqb p [cSLASHc] || str_eqb p sTHUMBDIR then IsRootEntry
